@@ -267,6 +267,22 @@ func (m *monC05) checkCanaryNodes(s *Sim, t *Task, v *SyncView, st *edsv1.Extend
 		}
 	}
 	lo, hi := nEligible, nEligible
+	// "the nodes the ExtendedDaemonSet targets" may be read with the active or with the new
+	// template when their eligibility differs: accept both
+	if act := ownERS(v)[st.ActiveReplicaSet]; act != nil {
+		n := 0
+		for _, nd := range nodeObjs {
+			if eligibleSpec(nd, &act.Spec.Template.Spec) {
+				n++
+			}
+		}
+		if n < lo {
+			lo = n
+		}
+		if n > hi {
+			hi = n
+		}
+	}
 	if m.elig == nil {
 		m.elig = map[string][2]int{}
 	}
@@ -286,6 +302,13 @@ func (m *monC05) checkCanaryNodes(s *Sim, t *Task, v *SyncView, st *edsv1.Extend
 	}
 	if len(nodes) > wantHi {
 		s.Violate("C15", "count", "more", "%s: %d canary nodes, replicas %s resolves to %d", t.Label(), len(nodes), can.Replicas.String(), wantHi)
+	}
+	if can.Replicas.Type == 1 {
+		// a percentage is resolved from what the controller knows: while the replica sets'
+		// statuses (and so status.desired) still lag, a smaller selection is transient
+		if byStatus, ok := resolvePct(can.Replicas, int(v.EDS.Status.Desired), true); ok && byStatus < wantLo {
+			wantLo = byStatus
+		}
 	}
 	if len(nodes) < wantLo {
 		sig := "fewer"
